@@ -225,7 +225,7 @@ def run(prog, tier) -> Result:
             sf = v.fields.get("_smallest_fraction")
             if not isinstance(sf, Num):
                 return ("smallest fraction not stored", repr(sf))
-            if expect_sf is not None and not st.norm(sf.rf).equals(expect_sf):
+            if expect_sf is not None and not st.norm(sf.rf).equals(st.norm(expect_sf)):
                 return ("smallest fraction is not ten to the minus minor units", f"stored {st.norm(sf.rf)!r}, contract {expect_sf!r}")
             return None
         return judge
@@ -274,12 +274,26 @@ def run(prog, tier) -> Result:
                     f"minor units, countries)")
         if not isinstance(sf, Num):
             return ("smallest fraction not stored", repr(sf))
-        minor = [a_ for a_ in st.norm(sf.rf).atoms() if a_[0] == "rec"]
-        want_sf = RF.const(10).pow_sym((0, -1))
-        exp_sym = getattr(st, "exp_symbol", None)
-        if not (exp_sym is not None and exp_sym[0] == "rec" and exp_sym[-1] == 3 and st.norm(sf.rf).equals(want_sf)):
+        # the record's minor units: field 3 of the looked-up record (a symbolic integer, possibly pinned by the path)
+        rec_atoms = {a_ for e in st.effects if e[0] == "symlookup" for a_ in ()}
+        minor_atom = None
+        for a_ in list(st.subst) + [getattr(st, "exp_symbol", None)] + list(st.norm(sf.rf).atoms()):
+            if a_ is not None and a_[0] == "rec" and a_[-1] == 3:
+                minor_atom = a_
+        if minor_atom is None:
+            return ("smallest fraction does not depend on the record's minor units",
+                    f"stored {st.norm(sf.rf)!r}")
+        mval = st.norm(RF.atom(minor_atom))
+        if mval.is_const() and mval.const_value().denominator == 1:
+            want_sf = RF.const(Fraction(10) ** -int(mval.const_value()))
+        elif getattr(st, "exp_symbol", None) == minor_atom:
+            want_sf = st.norm(RF.const(10).pow_sym((0, -1)))
+        else:
             return ("smallest fraction is not ten to the minus minor units of the record",
-                    f"stored {st.norm(sf.rf)!r} with exponent symbol {exp_sym!r}")
+                    f"stored {st.norm(sf.rf)!r}; minor units {mval!r}")
+        if not st.norm(sf.rf).equals(want_sf):
+            return ("smallest fraction is not ten to the minus minor units of the record",
+                    f"stored {st.norm(sf.rf)!r}, contract {want_sf!r} (minor units {mval!r})")
         return None
     cr.run("R08.3", rc, "register_currency", rc_setup, judge_rc, min_paths=3)
 
